@@ -22,6 +22,8 @@ func runC08(c *an.Ctx) string {
 	r086Stale(c)
 	r087Override(c)
 	r088ViewAttribute(c)
+	metaSelectionAgreement(c, "R08.9", "view")
+	r0810MemoKey(c)
 	return explanationC08
 }
 
@@ -458,4 +460,50 @@ func r088ViewAttribute(c *an.Ctx) {
 		})
 	}
 	c.Floor(rule, n, 3, "recursive projection calls")
+}
+
+// r0810MemoKey (R08.10): projections are memoised under hashAttrAndView(att,
+// view). Two attributes that share a key are given the same projected type, so
+// the key must separate every pair of types the projection separates: the
+// structural hash it is built from is computed with nothing ignored (fields,
+// names and tags all significant) and the view name is part of the key.
+func r0810MemoKey(c *an.Ctx) {
+	const rule = "R08.10"
+	f := c.MustFunc(rule, "expr", "hashAttrAndView")
+	if f == nil {
+		return
+	}
+	info := f.Pkg.TypesInfo
+	ok, usesView := false, false
+	var viewParam types.Object
+	sig := f.Obj.Type().(*types.Signature)
+	for i := 0; i < sig.Params().Len(); i++ {
+		if sig.Params().At(i).Type().String() == "string" {
+			viewParam = sig.Params().At(i)
+		}
+	}
+	why := "no call to Hash found"
+	ast.Inspect(f.Decl.Body, func(nd ast.Node) bool {
+		switch x := nd.(type) {
+		case *ast.CallExpr:
+			if an.CalleeName(info, x) == an.P("expr")+".Hash" && len(x.Args) == 4 {
+				ok = true
+				for i, name := range []string{"ignoreFields", "ignoreNames", "ignoreTags"} {
+					if v, isConst := an.ConstBool(info, x.Args[i+1]); !isConst || v {
+						ok = false
+						why = "the structural hash of the memo key is computed with " + name + " set: two different result types that only differ in what is ignored share one memo entry, and the second is rendered with the first one's projection"
+					}
+				}
+			}
+		case *ast.Ident:
+			if viewParam != nil && info.Uses[x] == viewParam {
+				usesView = true
+			}
+		}
+		return true
+	})
+	if ok && !usesView {
+		ok, why = false, "the view name is not part of the memo key"
+	}
+	c.Check(ok, rule, f.Name+"#key", f.Decl.Pos(), "the projection memo key is the full structural hash plus the view name", why)
 }
